@@ -558,10 +558,10 @@ pub fn run(ctx: &Ctx) {
             ctx,
             &fam,
             &m,
-            ExploreOpts { max_depth: depth, wall_cap: Duration::from_secs(ctx.tier.pick(40, 1500)), state_cap: ctx.tier.pick(600_000, 16_000_000), dedup: true },
+            ExploreOpts { max_depth: depth, wall_cap: Duration::from_secs(ctx.tier.pick(400, 1500)), state_cap: ctx.tier.pick(600_000, 16_000_000), dedup: true },
         );
         if i == 0 {
-            explore::audit_dedup(ctx, &fam, &m, &res, ctx.tier.pick(2, 3), Duration::from_secs(ctx.tier.pick(20, 300)));
+            explore::audit_dedup(ctx, &fam, &m, &res, ctx.tier.pick(2, 3), Duration::from_secs(ctx.tier.pick(300, 300)));
         }
     }
     let nodes: Vec<NodeCase> = ["router", "switch", "hub"].iter().map(|m| NodeCase { mode: m.to_string() }).collect();
